@@ -25,12 +25,13 @@ def history_stream(ctx, cuqi, rng, n):
     from cuqi.experimental.mcmc import NUTS
     jobs = []; lines = []
     for i in range(n):
-        c = gen_tight(rng, False) if i % 4 == 3 else gen_case(rng, False)
-        c["int_x0"] = False; c["md"] = min(c["md"], 4)
         pat = rng.choice(PATTERNS)
+        # after reinitialize() the depth bound is 15: only well-conditioned targets with a moderate step size there (U-turn within ~2^6 leaves)
+        c = gen_tight(rng, False) if (i % 4 == 3 and "R" not in pat) else gen_case(rng, False)
+        c["int_x0"] = False; c["md"] = min(c["md"], 4)
         nu = 3 * (2 ** (c["md"] + 1)) + 8
         if "R" in pat:          # reinitialize() resets max_depth to the default 15 (see Model/C08_history.lean): keep trajectories short
-            c["eps"] = max(c["eps"], 1 / 8); nu = 800
+            c["eps"] = max(c["eps"], 1 / 4); nu = 800
         ops = []
         for ch in pat:
             if ch == "S":
